@@ -14,6 +14,9 @@ git apply $SRC/patch.diff 2>/dev/null || git apply -3 $SRC/patch.diff || { echo 
 git diff > /tmp/sv-$ID-$K.applied.diff
 PKGS=$(grep '^+++ b/' $SRC/patch.diff | sed 's|+++ b/||' | xargs -n1 dirname | sort -u | sed 's|^|./|')
 DEMODIR=$(grep -m1 -oE '(Belongs in package directory|package directory|belongs in)[: ]+`?[a-zA-Z0-9_./-]+' $SRC/demo_test.go | grep -oE '[a-zA-Z0-9_./-]+$' | sed 's|/$||')
+D2=$(grep -m1 -oE 'go test[^|]* \./[A-Za-z0-9_./-]+' $SRC/demo_test.go | grep -oE '\./[A-Za-z0-9_./-]+$' | sed 's|^\./||; s|/$||; s|/\.\.\.$||')
+[ -n "$D2" ] && [ -d "$D2" ] && DEMODIR=$D2
+[ -d "$DEMODIR" ] || DEMODIR=$(grep -m1 -oE 'Belongs in:? +[A-Za-z0-9_./-]+' $SRC/demo_test.go | awk '{print $NF}' | sed 's|/$||')
 [ -d "$DEMODIR" ] || DEMODIR=$(echo $PKGS | awk '{print $1}')
 DEMOPKG=$(grep -m1 '^package ' $SRC/demo_test.go | awk '{print $2}')
 cp $SRC/demo_test.go $DEMODIR/zz_seed_demo_test.go
